@@ -290,6 +290,11 @@ class Exec:
             v = p.env[n.id]
             if type(v).__name__ == "Poison":
                 raise Unsupported(f"{self.module.name}:{n.lineno}: loop temporary {n.id} used outside its iteration")
+            if isinstance(v, Opt) and p.cond:
+                # narrowing: on a path that already decided `v is not None`, the name denotes the payload
+                notnone = z3.Not(v.isnone).get_id()
+                if any(c.get_id() == notnone for c in p.cond[-6:]):
+                    return [(p, v.val)]
             return [(p, v)]
         return [(p, self.global_name(n.id, n))]
 
@@ -329,6 +334,12 @@ class Exec:
         if kind == "member":
             base, rest = r[1], r[2]
             if base[0] == "class":
+                # enum members / class-level constants: Cls.member(.value) -> the assigned constant
+                cdef = base[2]
+                for st in cdef.body:
+                    if isinstance(st, ast.Assign) and isinstance(st.targets[0], ast.Name) and st.targets[0].id == rest[0] \
+                            and isinstance(st.value, ast.Constant) and (len(rest) == 1 or list(rest[1:]) == ["value"]):
+                        return self.const(st.value.value)
                 return Fn("classattr", (base[3], tuple(rest)))
             if base[0] == "value":
                 val = self.module_constant(base[1], base[2], base[3])
@@ -430,6 +441,10 @@ class Exec:
                     pairs.append((Str(f["name"]), Obj("pydantic.FieldInfo", {"default": d if d is not None else NONE})))
                 return [(p, Dct(pairs))]
             return [(p, Fn("classattr", (base.data, (attr,))))]
+        if isinstance(base, NDArr):
+            if attr == "dtype":
+                return [(p, Str(base.dtype))]
+            return [(p, Fn("method", (base, attr)))]
         if isinstance(base, (Lst, Dct, DctL, Str, Tup, SetV)):
             return [(p, Fn("method", (base, attr)))]
         raise Unsupported(f"{self.module.name}:{node.lineno}: attribute {attr} of {type(base).__name__}")
@@ -448,13 +463,23 @@ class Exec:
         return [(p1, SetV(vals)) for p1, vals in self.ev_seq(n.elts, p)]
 
     def ev_Dict(self, n, p):
-        if any(k is None for k in n.keys):
-            raise Unsupported("dict splat")
-        out = []
-        for p1, ks in self.ev_seq(n.keys, p):
-            for p2, vs in self.ev_seq(n.values, p1):
-                out.append((p2, Dct(list(zip(ks, vs)))))
-        return out
+        res = [(p, [])]
+        for k, vnode in zip(n.keys, n.values):
+            nxt = []
+            for q, pairs in res:
+                if k is None:   # {**other}
+                    for q2, d in self.ev(vnode, q):
+                        if not isinstance(d, Dct):
+                            raise Unsupported("dict splat of a non-literal dict")
+                        merged = [pr for pr in pairs if not any(z3.is_true(z3.simplify(eq(pr[0], k2))) for k2, _ in d.pairs)] + list(d.pairs)
+                        nxt.append((q2, merged))
+                else:
+                    for q2, kv in self.ev(k, q):
+                        for q3, vv in self.ev(vnode, q2):
+                            kept = [pr for pr in pairs if not z3.is_true(z3.simplify(eq(pr[0], kv)))]
+                            nxt.append((q3, kept + [(kv, vv)]))
+            res = nxt
+        return [(q, Dct(pairs)) for q, pairs in res]
 
     def ev_Lambda(self, n, p):
         return [(p, Fn("lambda", (n, dict(p.env), self.module)))]
@@ -546,6 +571,9 @@ class Exec:
         h = self.handlers.get("op:" + sym)
         if h is not None and (isinstance(a, Opq) or isinstance(b, Opq)):
             return h(self, p, [a, b], {}, node)
+        if isinstance(a, NDArr) or isinstance(b, NDArr):
+            from .array_model import nd_binop
+            return nd_binop(self, sym, a, b, p, node)
         p, x = self.as_num(a, p, node)
         p, y = self.as_num(b, p, node)
         return [self.arith(sym, x, y, p, node)]
@@ -787,6 +815,8 @@ class Exec:
             if base.concrete and not base.items:
                 raise DeadPath()
             return [(p, base.at(it))]
+        if isinstance(base, Obj) and ("getitem:" + base.cls) in self.handlers:
+            return self.handlers["getitem:" + base.cls](self, p, [base, idx], {}, node)
         if isinstance(base, NDArr):
             p, i = self.as_num(idx, p, node)
             it = i.t
@@ -819,6 +849,9 @@ class Exec:
                 raise Unsupported("slice bound")
             return z3.simplify(v.t)
         lo, hi, st = one(sl.lower), one(sl.upper), one(sl.step)
+        if isinstance(base, NDArr):
+            from .array_model import coord_data_slice
+            return [(p, coord_data_slice(self, base, lo, hi, st))]
         if isinstance(base, Tup):
             base = Lst(items=base.items)
         if not isinstance(base, Lst):
@@ -963,6 +996,8 @@ class Exec:
             return Lst(items=v.items)
         if isinstance(v, SetL):
             raise Unsupported("iteration order of a set")
+        if isinstance(v, NDArr):
+            return Lst(n=v.n, at=v.at)
         if isinstance(v, Dct):
             return Lst(items=[k for k, _ in v.pairs])
         if isinstance(v, Obj):
@@ -1248,7 +1283,7 @@ def bind_arguments(ex: Exec, fmod: Module, fnode, args, kwargs, p: Path, closure
 CONSTANT_HANDLERS = {"uuid.NAMESPACE_DNS"}
 BUILTIN_NAMES = {"len", "min", "max", "abs", "int", "float", "bool", "str", "isinstance", "any", "all", "next", "set",
                  "list", "dict", "tuple", "zip", "enumerate", "range", "sum", "hasattr", "getattr", "iter", "sorted",
-                 "round", "print", "repr", "id", "hash", "type", "super", "reversed", "map", "filter", "noop",
+                 "round", "print", "repr", "id", "hash", "type", "super", "reversed", "map", "filter", "noop", "slice",
                  # contract-language builtins
                  "forall", "exists", "implies", "old", "distinct"}
 BUILTIN_EXC = {"ValueError", "KeyError", "TypeError", "IndexError", "NotImplementedError", "AssertionError",
